@@ -24,7 +24,7 @@ const NT: usize = 4;
 const NH: usize = 4;
 const MODEL_PAR: usize = 2;
 const REAL_PAR: usize = 20;
-const FILLER: usize = REAL_PAR - MODEL_PAR;
+const FILLER: usize = REAL_PAR - 1;
 
 fn sha(b: &[u8]) -> [u8; 32] {
     Sha256::digest(b).into()
@@ -53,6 +53,11 @@ struct World {
     filler_holder: PeerId,
     types: Vec<RecordType>,
     padded: bool,
+}
+
+/// number of parallel-fetch slots left to the model keys (default MODEL_PAR; `--free N` for the ordering-stress runs)
+fn free_slots() -> usize {
+    arg("--free").and_then(|s| s.parse().ok()).unwrap_or(MODEL_PAR)
 }
 
 impl World {
@@ -86,7 +91,7 @@ impl World {
         let mut w = World { me, f, ev_rx, keys, dists, filler, holders, filler_holder, types, padded };
         if padded {
             let empty = HashMap::new();
-            for fk in w.filler.clone() {
+            for fk in w.filler.clone().into_iter().take(REAL_PAR - free_slots()) {
                 let got = w.f.add_keys(w.filler_holder, vec![(NetworkAddress::from_record_key(&fk), RecordType::Chunk)], &empty);
                 assert_eq!(got.len(), 1, "filler fetch must start");
             }
@@ -217,7 +222,7 @@ async fn step(w: &mut World, t: &mut Trace, s: &Value, src: &str, exp: Option<&V
         "range": w.range_id(), "far": w.far_id(),
         "filler_og": og_fill, "filler_tf": tf_fill, "filler_ret": ret_filler, "src": src,
     });
-    if let Some(x) = exp {
+    if let Some(x) = exp.filter(|x| !x["tf"].is_null()) {
         line["exp"] = json!({"tf": x["tf"], "og": x["og"], "failed": x["failed"], "issued": x["issued"], "range": x["range"], "far": x["far"]});
     }
     t.emit(line);
@@ -334,6 +339,48 @@ async fn run() {
         for _ in 0..steps {
             let s = random_step(&w, &mut rng, &mut held);
             step(&mut w, &mut t, &s, "random", None).await;
+        }
+    }
+    // ordering stress: single-key advertisements of the closest keys go in flight, then another holder
+    // advertises a long list containing the same records: many queued entries, the closest of them not startable
+    let n_stress: usize = arg("--stress").and_then(|s| s.parse().ok()).unwrap_or(0);
+    let stress_from: usize = arg("--stress-from").and_then(|s| s.parse().ok()).unwrap_or(0);
+    for i in stress_from..stress_from + n_stress {
+        run_no += 1;
+        let mut rng = StdRng::seed_from_u64(seed.wrapping_mul(15_485_863).wrapping_add(i as u64));
+        let mut w = World::new(&mut rng, true);
+        t.emit(json!({"ev":"Reset","run":run_no,"src":"stress","index":i}));
+        let mut held = vec![0usize; NK];
+        let ty = rng.gen_range(1..=NT);
+        let singles = rng.gen_range(1..free_slots().max(2));
+        let mut ks: Vec<usize> = (1..=NK).collect();
+        ks.shuffle(&mut rng);
+        let mut firsts: Vec<usize> = ks[..singles].to_vec();
+        if rng.gen_bool(0.7) { firsts = (1..=singles).collect(); }
+        for k in &firsts {
+            step(&mut w, &mut t, &json!({"ev":"AddKeys","h":1,"list":[[k, ty]],"held":held.clone()}), "stress", None).await;
+        }
+        let mut set = BTreeSet::new();
+        for k in &firsts { set.insert((*k, ty)); }
+        let n = rng.gen_range(5..=12);
+        while set.len() < n + firsts.len() {
+            set.insert((rng.gen_range(1..=NK), if rng.gen_bool(0.6) { ty } else { rng.gen_range(1..=NT) }));
+        }
+        let list: Vec<Value> = set.into_iter().map(|(k, t)| json!([k, t])).collect();
+        step(&mut w, &mut t, &json!({"ev":"AddKeys","h":2,"list":list,"held":held.clone()}), "stress", None).await;
+        // every other run: long lists from the remaining holders too (several dozen queued entries)
+        if i % 2 == 1 {
+            for h in 3..=NH {
+                let mut set = BTreeSet::new();
+                let n = rng.gen_range(16..=NK * NT);
+                while set.len() < n { set.insert((rng.gen_range(1..=NK), rng.gen_range(1..=NT))); }
+                let list: Vec<Value> = set.into_iter().map(|(k, t)| json!([k, t])).collect();
+                step(&mut w, &mut t, &json!({"ev":"AddKeys","h":h,"list":list,"held":held.clone()}), "stress", None).await;
+            }
+        }
+        for _ in 0..steps / 2 {
+            let s = random_step(&w, &mut rng, &mut held);
+            step(&mut w, &mut t, &s, "stress", None).await;
         }
     }
     let n_rounds: usize = arg("--rounds").and_then(|s| s.parse().ok()).unwrap_or(0);
